@@ -53,7 +53,7 @@ def read_facts(fails):
     """-> dict of the facts the model depends on; a piece that cannot be read is None (and reported `unreadable:`),
     a piece that reads differently from what the proofs need is a hard failure"""
     import rsread
-    f = dict(fds=None, nbytes=None, ret_steps=None, sd_steps=None, qf=None, qb=None, qand=None)
+    f = dict(fds=None, nbytes=None, ret_steps=None, sd_steps=None, qf=None, qb=None, qand=None, perm=None, clients=None, nproto=None)
     scm = _read("command/src/scm_socket.rs")
     table = rsread.consts(scm)
     f["fds"] = rsread.evalc(table.get("MAX_FDS_OUT"), table)
@@ -130,7 +130,9 @@ def read_facts(fails):
                 fails.append("unreadable: scm_socket.rs: the test rejecting a manifest with more entries than descriptors received")
     srv = _read("lib/src/server.rs")
     f["ret_steps"] = order_of_return(srv, fails)
-    f["sd_steps"] = order_of_shutdown(srv, fails)
+    got = {}
+    f["sd_steps"] = order_of_shutdown(srv, fails, got)
+    f["perm"], f["clients"], f["nproto"] = protocol_numbers(got.get("protos"), fails)
     f["qf"], f["qb"], f["qand"] = quiesced_shape(fails)
     return f
 
@@ -170,9 +172,15 @@ def translate(snapshot=False):
                           "Definition quiesced_front : list nat * bool := ([%s], %s).\n"
                           "Definition quiesced_back : list nat * bool := ([%s], %s).\n"
                           "Definition quiesced_both : bool := %s.\n"
+                          "(* the protocols shut_down_sessions counts as permanent slots and the client protocols, as positions in\n"
+                          "   `pub enum Protocol` (lib/src/lib.rs), and the number of its variants *)\n"
+                          "Definition permanent_protocols : list nat := [%s].\n"
+                          "Definition client_protocols : list nat := [%s].\n"
+                          "Definition protocol_count : nat := %d.\n"
                           % (fds, nbytes // 1000, nbytes % 1000, "; ".join(map(str, g["ret_steps"])), "; ".join(map(str, g["sd_steps"])),
                              "; ".join(map(str, qf[0])), "true" if qf[1] else "false",
-                             "; ".join(map(str, qb[0])), "true" if qb[1] else "false", "true" if qand else "false"))
+                             "; ".join(map(str, qb[0])), "true" if qb[1] else "false", "true" if qand else "false",
+                             "; ".join(map(str, g["perm"])), "; ".join(map(str, g["clients"])), g["nproto"]))
     return fails
 
 
@@ -262,7 +270,27 @@ def order_of_return(srv, fails):
     return steps + [7]          # the local listener vectors go out of scope at the end of the function
 
 
-def order_of_shutdown(srv, fails):
+CLIENTS = ("HTTP", "HTTPS", "TCP", "UDP")
+
+
+def protocol_numbers(protos, fails):
+    """the permanent-slot protocols and the client protocols as positions in `pub enum Protocol` (lib/src/lib.rs)"""
+    import rsread
+    lib = _read("lib/src/lib.rs")
+    m = re.search(r"\bpub\s+enum\s+Protocol\s*\{([^}]*)\}", lib)
+    names = [x.strip() for x in m.group(1).split(",") if x.strip()] if m else []
+    if not names or any(not re.fullmatch(r"[A-Za-z0-9_]+", n) for n in names) or protos is None:
+        if not names or any(not re.fullmatch(r"[A-Za-z0-9_]+", n) for n in names):
+            fails.append("unreadable: lib.rs: the variants of `pub enum Protocol` (model: 4 client protocols, 7 permanent ones)")
+        return None, None, None
+    unknown = [n for n in sorted(protos) + list(CLIENTS) if n not in names]
+    if unknown:
+        fails.append("lib.rs: enum Protocol has no variant %s" % unknown)
+        return None, None, None
+    return sorted(names.index(n) for n in protos), sorted(names.index(n) for n in CLIENTS), len(names)
+
+
+def order_of_shutdown(srv, fails, got=None):
     import rsread
     b = rsread.body(srv, "shut_down_sessions")
     if b is None:
@@ -298,8 +326,11 @@ def order_of_shutdown(srv, fails):
         protos = _protocols_of(dy.group(2), srv)
         if not protos:
             fails.append("unreadable: server.rs: shut_down_sessions: the protocols counted as permanent slots")
-        elif protos != PERMANENT:
-            fails.append("server.rs: shut_down_sessions counts %s as permanent slots, the model assumes %s" % (sorted(protos), sorted(PERMANENT)))
+        else:
+            if got is not None:
+                got["protos"] = protos
+            if protos != PERMANENT:
+                fails.append("server.rs: shut_down_sessions counts %s as permanent slots, the model assumes %s" % (sorted(protos), sorted(PERMANENT)))
     if len(re.findall(r"shutting_down\s*\.\s*take\s*\(\)", b)) != 1:
         fails.append("server.rs: shut_down_sessions no longer takes the soft-stop request id exactly once")
     if len(re.findall(r"WorkerResponse::ok\s*\(", b)) != 1:
